@@ -26,7 +26,7 @@ from .c01 import balance_check
 
 ID = 'C08'
 LEVEL = 'exploration'
-CASES = {'quick': 384, 'thorough': 8000}
+CASES = {'quick': 960, 'thorough': 12000}
 CASE_TIMEOUT = 15
 TECHNIQUE = ('property-based testing (Hypothesis): generated networks with 1-3+ leaks and short add/run/remove/reset '
              'histories simulated with WNTRSimulator; every reported row compared with a closed-form orifice '
